@@ -87,7 +87,8 @@ class Engine:
         t0 = time.time()
         s.push()
         s.add(cond)
-        r = str(s.check())
+        from .discharge import guarded_check
+        r = guarded_check(s, self.feas_timeout_ms)
         if r == 'sat':
             try:
                 self._model = s.model()
@@ -179,6 +180,11 @@ def rat(x):
         x = float(x)
         if math.isnan(x) or math.isinf(x):
             raise ValueError("nan/inf in symbolic arithmetic")
+        # a double that is the nearest double of a simple fraction (2/3, 1/3, 3.71 ...) denotes
+        # that fraction; otherwise the exact decimal of its repr
+        f1 = Fraction(x).limit_denominator(10000)
+        if float(f1) == x:
+            return z3.RealVal(str(f1))
         return z3.RealVal(str(Fraction(repr(x))))
     raise TypeError("cannot lift %r" % type(x))
 
@@ -219,6 +225,9 @@ class SymBool:
     def __or__(self, o):
         return SymBool(z3.Or(self.t, self._o(o)))
     __ror__ = __or__
+
+    def __abs__(self):
+        return self
 
     def __repr__(self):
         return "<SymBool>"
